@@ -11,6 +11,12 @@ def parseTrusts (s : String) : Option (List Trust) := do
 def parsePairs (s : String) : Option (List (Nat × Nat)) := do
   let ls ← parseList2 (fun s => s.toNat?) s
   ls.mapM (fun l => match l with | [a, b] => some (a, b) | _ => none)
+/-- joint unimodalities: `d1,d2,…,flag;…` with `flag = 1` for `'valley'`, `0` for `'peak'` -/
+def parseJus (s : String) : Option (List JointUni) := do
+  let ls ← parseList2 (fun s => s.toNat?) s
+  ls.mapM (fun l => match l.reverse with
+    | flag :: rdims => if flag > 1 then none else some ⟨rdims.reverse, flag == 1⟩
+    | [] => none)
 def parseBools (s : String) : Option (List Bool) := (parseNats s).map (·.map (· != 0))
 
 def withTable (sizes : List Nat) (vals : List Rat) (f : Table → Table) : Option String :=
@@ -31,7 +37,14 @@ def handlers : List (String × Handler) := [
       let ew ← parseTrusts ew; let tz ← parseTrusts tz
       let md ← parsePairs md; let rd ← parsePairs rd; let jm ← parsePairs jm
       let iters ← iters.toNat?; let vals ← parseRats vals
-      let cfg : DCfg := ⟨sz, mono, uni, ew, tz, md, rd, jm⟩
+      let cfg : DCfg := ⟨sz, mono, uni, ew, tz, md, rd, jm, []⟩
+      withTable sz vals (projectByDykstraT cfg iters)
+    | [sz, mono, uni, ew, tz, md, rd, jm, ju, iters, vals] => do
+      let sz ← parseNats sz; let mono ← parseBools mono; let uni ← parseInts uni
+      let ew ← parseTrusts ew; let tz ← parseTrusts tz
+      let md ← parsePairs md; let rd ← parsePairs rd; let jm ← parsePairs jm; let ju ← parseJus ju
+      let iters ← iters.toNat?; let vals ← parseRats vals
+      let cfg : DCfg := ⟨sz, mono, uni, ew, tz, md, rd, jm, ju⟩
       withTable sz vals (projectByDykstraT cfg iters)
     | _ => none),
   ("lat.constraint", fun args => match args with
@@ -41,7 +54,15 @@ def handlers : List (String × Handler) := [
       let md ← parsePairs md; let rd ← parsePairs rd; let jm ← parsePairs jm
       let lo ← parseOptRat lo; let hi ← parseOptRat hi
       let iters ← iters.toNat?; let strict ← parseBool strict; let vals ← parseRats vals
-      let cfg : DCfg := ⟨sz, mono, uni, ew, tz, md, rd, jm⟩
+      let cfg : DCfg := ⟨sz, mono, uni, ew, tz, md, rd, jm, []⟩
+      withTable sz vals (latticeConstraintT ⟨cfg, lo, hi, iters, strict⟩)
+    | [sz, mono, uni, ew, tz, md, rd, jm, ju, lo, hi, iters, strict, vals] => do
+      let sz ← parseNats sz; let mono ← parseBools mono; let uni ← parseInts uni
+      let ew ← parseTrusts ew; let tz ← parseTrusts tz
+      let md ← parsePairs md; let rd ← parsePairs rd; let jm ← parsePairs jm; let ju ← parseJus ju
+      let lo ← parseOptRat lo; let hi ← parseOptRat hi
+      let iters ← iters.toNat?; let strict ← parseBool strict; let vals ← parseRats vals
+      let cfg : DCfg := ⟨sz, mono, uni, ew, tz, md, rd, jm, ju⟩
       withTable sz vals (latticeConstraintT ⟨cfg, lo, hi, iters, strict⟩)
     | _ => none)
 ]
